@@ -31,7 +31,7 @@ use std::time::Duration;
 pub static INFO: PropInfo = PropInfo {
     id: "C10",
     level: "exploration",
-    rule: "one evaluation = one run against a fresh secure server with max_clients 1..4, 2..6 identities (1..3 tokens each, same id / different user data and keys) and 2..6 source addresses, all handshakes hand-driven through the crate's codec: first the scripted situations (two half-open sessions for one id answered in both orders; one address presenting several tokens; k handshakes racing for the last free slot with responses in seeded order; responses echoing the challenge of another half-open session; a full server receiving complete fresh handshakes; set_max_clients raised and the new slots used), then 80..400 seeded operations (request, matching or cross response, client disconnect packet from the right or a wrong address, server disconnect, time steps of 10 ms..3 s with update_client on every id so that 2 s / 5 s timeouts fire - in a third of them a connection request (preferably another token of a connected id, from another address) is processed after the clock advanced and before the sweep, the order the transport works in -, keep-alive payloads, replays of any earlier datagram from its own or another address, re-minted tokens, set_max_clients raised; lowered only in the runs that do not assert the capacity clause). After EVERY call the connection-table model fed by the ServerResults is compared with clients_id / connected_clients / client_addr / user_data / is_client_connected, and sessions are probed with payloads in both directions (sealed under the keys of the token the session was created from). Client addresses include IPv6 link-local sources with scope ids / flow labels (the same ip and port under two scope ids are two addresses) and IPv4-mapped sources. Non-trivial = the run saw at least 2 simultaneously connected clients (or max_clients = 1), at least one disconnect and at least one refused handshake at a full server; distinct = distinct fingerprints of the (operation, result kind, table) history.",
+    rule: "one evaluation = one run against a fresh secure server with max_clients 1..4, 2..6 identities (1..3 tokens each, same id / different user data and keys) and 2..6 source addresses, all handshakes hand-driven through the crate's codec: first the scripted situations (two half-open sessions for one id answered in both orders; one address presenting several tokens; k handshakes racing for the last free slot with responses in seeded order; responses echoing the challenge of another half-open session; a full server receiving complete fresh handshakes; set_max_clients raised and the new slots used), then 80..400 seeded operations (request, matching or cross response, client disconnect packet from the right or a wrong address, server disconnect, time steps of 10 ms..3 s with update_client on every id so that 2 s / 5 s timeouts fire - in a third of them a connection request (preferably another token of a connected id, from another address) is processed after the clock advanced and before the sweep, the order the transport works in -, keep-alive payloads, replays of any earlier datagram from its own or another address, re-minted tokens, set_max_clients raised; lowered only in the runs that do not assert the capacity clause). After EVERY call the connection-table model fed by the ServerResults is compared with clients_id / connected_clients / client_addr / user_data / is_client_connected, and sessions are probed with payloads in both directions (sealed under the keys of the token the session was created from). The request that arrives between the clock and the sweep is sometimes followed by its response at once (a whole handshake before the sweep), also from the address of a session that is connected right now - possibly one whose deadline has just passed and which the sweep has not removed yet. Client addresses include IPv6 link-local sources with scope ids / flow labels (the same ip and port under two scope ids are two addresses) and IPv4-mapped sources. Non-trivial = the run saw at least 2 simultaneously connected clients (or max_clients = 1), at least one disconnect and at least one refused handshake at a full server; distinct = distinct fingerprints of the (operation, result kind, table) history.",
     assumptions: &[
         "the capacity clause is asserted only in runs that never lower the limit (as the statement says)",
         "clients_id() is expected to equal the set {ClientConnected reported, ClientDisconnected not yet reported} after every call",
@@ -337,9 +337,17 @@ impl World {
             if self.model.contains_key(&self.toks[t].id()) {
                 out.count("request_for_connected_id_between_clock_and_sweep");
             }
-            let _ = self.request(ctx, out, t, from);
+            let challenged = self.request(ctx, out, t, from);
             if self.stop {
                 return;
+            }
+            // ... and sometimes the whole handshake: the response follows before the sweep as well
+            if challenged && self.srv.now.subsec_millis() % 2 == 0 {
+                out.count("handshake_between_clock_and_sweep");
+                let _ = self.respond(ctx, out, from, t, t);
+                if self.stop {
+                    return;
+                }
             }
         }
         for id in self.srv.s.clients_id() {
@@ -717,7 +725,16 @@ pub fn one_run(ctx: &Ctx, out: &mut Outcome, run_seed: u64) {
                 let between = if r.chance(1, 3) && !w.toks.is_empty() && !w.addrs.is_empty() {
                     let connected: Vec<usize> = (0..w.toks.len()).filter(|t| w.model.contains_key(&w.toks[*t].id())).collect();
                     let t = if !connected.is_empty() && r.chance(3, 4) { *r.pick(&connected) } else { r.usize_below(w.toks.len()) };
-                    Some((t, *r.pick(&w.addrs)))
+                    // from any address, or from the address of a session that is connected right now (it may be one
+                    // whose deadline this very tick passes: until the sweep its address is still taken)
+                    let taken: Vec<SocketAddr> = w.model.values().map(|c| c.addr).collect();
+                    if !taken.is_empty() && r.chance(1, 2) {
+                        let unconnected: Vec<usize> = (0..w.toks.len()).filter(|t| !w.model.contains_key(&w.toks[*t].id())).collect();
+                        let t2 = if unconnected.is_empty() { t } else { *r.pick(&unconnected) };
+                        Some((t2, *r.pick(&taken)))
+                    } else {
+                        Some((t, *r.pick(&w.addrs)))
+                    }
                 } else {
                     None
                 };
